@@ -3,7 +3,7 @@
    one line per operation. *)
 From NV Require Import Base.Util Base.Sexp Base.IntTy Base.FloatBits Base.Float Base.Expr
      Macro.Surface Macro.Ast Macro.Parse Macro.Validate Macro.Messages
-     Sem.Guard Sem.Value Sem.Eval Sem.Conv Sem.Bytes Sem.ArbInt Sem.ArbStr Sem.ArbFloat Sem.Order Spec.GuardSpec Run.Lib Run.Decode.
+     Sem.Guard Sem.Value Sem.Eval Sem.Conv Sem.Bytes Sem.ArbInt Sem.ArbStr Sem.ArbFloat Sem.Order Spec.GuardSpec Spec.Reference Run.Lib Run.Decode.
 From NV.Unicode Require UnicodeData UStr.
 Local Open Scope string_scope.
 
@@ -91,9 +91,19 @@ Definition run_case (x : sexp) : list string :=
   | L (A "case" :: A id :: ft :: sd :: ops) =>
       match dec_features ft, dec_sdecl sd with
       | Some ft, Some sd =>
+          let rf := match parse_meta (sd_item sd) with
+                    | Accept fam =>
+                        match parse_attrs ft fam (sd_attr sd) with
+                        | Accept p =>
+                            ref_verdict ft (sd_item sd) fam p
+                              (fun s => match regex_valid regex_lib s with Some true => true | _ => false end)
+                        | Reject _ => "-"
+                        end
+                    | Reject _ => "0:item"
+                    end in
           match full_verdict ft sd with
-          | Accept d => (id ++ " accept") :: number_from id 0 (map (run_op d) ops)
-          | Reject c => [id ++ " reject " ++ c]
+          | Accept d => (id ++ " accept ref=" ++ rf) :: number_from id 0 (map (run_op d) ops)
+          | Reject c => [id ++ " reject " ++ c ++ " ref=" ++ rf]
           end
       | _, _ => [id ++ " bad_case"]
       end
